@@ -135,14 +135,24 @@ def run_term(chk):
         path = os.path.join(tmp, "p%d.janet" % idx)
         with open(path, "w") as f:
             f.write(src)
-        r = run(exe, [path], env={"VERIF_VTIME": "1"}, timeout=60)
+        r = run(exe, [path], env={"VERIF_VTIME": "1"}, timeout=40)
         os.unlink(path)
         return r
 
+    results = []
+    hangs = 0
     try:
-        results = pmap(one, list(enumerate(progs)))
+        todo = list(enumerate(progs))
+        for i in range(0, len(todo), 128):
+            if hangs >= 8:
+                chk.cap("termination: %d programs not run after %d hanging programs" % (len(todo) - i, hangs))
+                break
+            part = pmap(one, todo[i:i + 128])
+            hangs += sum(1 for r in part if r.timed_out)
+            results += part
     finally:
         shutil.rmtree(tmp, ignore_errors=True)
+    progs = progs[:len(results)]
     for (tasks, link, mw), r in zip(progs, results):
         chk.add(evaluations=1, transitions=1, states=1)
         src, expect = program(tasks, link, mw)
@@ -177,10 +187,13 @@ def run_steady(chk, scratch):
         pairs = [(a, b) for a in CYCLES for b in CYCLES if a != b]
     todo = singles + pairs
     items = [jdn({Kw("a"): Kw(a), Kw("b"): Kw(b) if b else None, Kw("n"): n, Kw("scratch"): scratch}) for a, b in todo]
-    res = run_batch("fast", STEADY, items, env={"VERIF_VTIME": "1"}, chunk=4, timeout=300)
+    res = run_batch("fast", STEADY, items, env={"VERIF_VTIME": "1"}, chunk=4, timeout=120, max_deaths=6)
     for (a, b), (st, text) in zip(todo, res):
         chk.add(evaluations=1, transitions=4, states=4)
         name = a + ("+" + b if b else "")
+        if st == "SKIPPED":
+            chk.cap("steady: cycles not run after 6 dead workers")
+            continue
         if st != "OK":
             chk.violation("steady:%s:%s" % (st.lower(), name), "cycle %s x %d: %s %s" % (name, n, st, text[:500]),
                           "# run props/C20/driver_steady.janet with item {:a :%s :b %s :n %d}\n" % (a, ":" + b if b else "nil", n))
